@@ -24,7 +24,8 @@ REPO = os.environ.get("ZV_REPO", "/repo")
 COQ = os.path.join(VERIF, "coq")
 WORK = os.path.join(VERIF, "work")
 HARNESS = os.path.join(VERIF, "harness")
-EVID = os.path.join(VERIF, "evidence")
+# evidence of runs against another checkout (ZV_REPO) never overwrites the evidence of /repo
+EVID = os.path.join(VERIF, "evidence") if os.path.realpath(REPO) == "/repo" else os.path.join(WORK, "evidence-alt")
 REPLAY = os.path.join(EVID, "replay")
 
 FORBIDDEN = re.compile(
@@ -44,6 +45,26 @@ TRUSTED_BASE = [
     "third-party crates the implementation calls (serde, serde_json, itoa, ryu, winnow, heck, "
     "tokio, async-broadcast): modelled where a property depends on them, tied by correspondence only",
 ]
+
+
+def harness_root():
+    """The harness package to build. With ZV_REPO pointing at another checkout of zlink (used to try
+    the checks on a scratch worktree without touching /repo) a copy of the harness with its path
+    dependencies redirected is kept under work/."""
+    if os.path.realpath(REPO) == "/repo":
+        return HARNESS
+    tag = hashlib.sha1(os.path.realpath(REPO).encode()).hexdigest()[:10]
+    d = os.path.join(WORK, "harness-" + tag)
+    os.makedirs(os.path.join(d, ".cargo"), exist_ok=True)
+    subprocess.run(["rsync", "-a", "--delete", os.path.join(HARNESS, "src") + "/", os.path.join(d, "src") + "/"], check=True)
+    toml = open(os.path.join(HARNESS, "Cargo.toml")).read().replace('"/repo/', '"%s/' % os.path.realpath(REPO))
+    if not os.path.exists(os.path.join(d, "Cargo.toml")) or open(os.path.join(d, "Cargo.toml")).read() != toml:
+        open(os.path.join(d, "Cargo.toml"), "w").write(toml)
+    cfg = open(os.path.join(HARNESS, ".cargo", "config.toml")).read().replace("/verif/harness/target", os.path.join(d, "target"))
+    open(os.path.join(d, ".cargo", "config.toml"), "w").write(cfg)
+    if not os.path.exists(os.path.join(d, "Cargo.lock")):
+        subprocess.run(["cp", os.path.join(HARNESS, "Cargo.lock"), os.path.join(d, "Cargo.lock")], check=True)
+    return d
 
 
 def sh(cmd, timeout=600, cwd=None, env=None, input=None):
@@ -247,17 +268,18 @@ class Check:
 
     # ---------------------------------------------------------------- harness
     def harness_build(self, bins, timeout=1500):
-        lock = os.path.join(HARNESS, "Cargo.lock")
+        root = harness_root()
+        lock = os.path.join(root, "Cargo.lock")
         if not os.path.exists(lock):
             sh("cp %s/Cargo.lock %s" % (REPO, lock))
         cmd = "cargo build --offline " + " ".join("--bin " + b for b in bins)
-        rc, out = sh(cmd, timeout=timeout, cwd=HARNESS)
+        rc, out = sh(cmd, timeout=timeout, cwd=root)
         return rc == 0, out
 
     def harness_run(self, binname, cases, timeout=900, shards=16, args=""):
         """Run a harness binary on JSON cases (one per line on stdin), in parallel shards.
         Returns the list of result dicts in case order."""
-        exe = os.path.join(HARNESS, "target", "debug", binname)
+        exe = os.path.join(harness_root(), "target", "debug", binname)
         if not cases:
             return []
         n = max(1, min(shards, len(cases)))
